@@ -26,7 +26,7 @@ Print Assumptions C08_local.
 Theorem C08_one_command : forall simple astr mredir cdres injrisk rulematch c ss fs ks,
   let t := T $"command" ss fs ks in
   walk simple astr mredir cdres injrisk rulematch c t =
-  combine (wparts simple astr mredir cdres injrisk rulematch c (children "words" t) ++ cmd_inj injrisk c t ++
+  combine (wparts simple astr mredir cdres injrisk rulematch c (children "words" t) ++ cmd_env t ++ cmd_names astr c t ++ cmd_inj injrisk c t ++
            redirs_of simple astr mredir cdres injrisk rulematch c t ++ cmd_proper simple rulematch c t).
 Proof. exact walk_command. Qed.
 Print Assumptions C08_one_command.
